@@ -276,13 +276,13 @@ CONDITIONS = [
     dict(fn="table", cubes={"quick": ["t == %d and n == %d and wi == %d" % (t, 0 if t in (5, 6) else 2, w) for t in range(9) for w in (0, 1, 2, 7)],
                             "thorough": ["t == %d and n == %d and wi == %d" % (t, n, w) for t in range(9) for n in ((0,) if t in (5, 6) else (1, 2, 3)) for w in range(8)]},
          twins=["reach", "mutant:id_reuse@t == 5 and n == 0 and wi == 7", "mutant:no_dedup@t == 5 and n == 0 and wi == 7", "mutant:merge_drops@t == 0 and n == 2 and wi == 1"],
-         timeout={"quick": 240, "thorough": 900},
+         timeout={"quick": 420, "thorough": 900},
          bounds="9 graph templates (incl. shared and cyclic) x 8x8 watch pairs (quick: first watch from 4) x UNBOUNDED symbolic max_variables"),
     dict(fn="capture_table", cubes=["ci == %d and kind == %d" % (c, k) for c in range(5) for k in range(2)], twins=["reach"],
          bounds="5 captured values (nested list, dict, exception with args, scalar, nested tuple) x method/line capture x 9 graph templates for the frame"),
     dict(fn="hostile_watch", cubes={"quick": ["ek == %d and where == %d and w3 == 1" % (e, wh) for e in range(5) for wh in range(2)],
                                     "thorough": ["ek == %d and where == %d" % (e, wh) for e in range(5) for wh in range(2)]},
-         twins=["reach"], timeout={"quick": 240, "thorough": 900},
+         twins=["reach"], timeout={"quick": 420, "thorough": 900},
          bounds="a list holding an object whose __repr__ raises one of 5 exception classes (2 Exception, 3 BaseException-only), as module global (watch-only) or local; "
                 "all 6^2 pairs (thorough 6^3 triples) of watches over it and its sub-objects"),
     dict(fn="fresh_watches", cubes={"quick": ["k == 2 and w1 %s" % a for a in ("<= 3", "in (4, 5, 6, 7)", ">= 8")] + ["k == 3 and w1 == 0 and w2 == 1", "k == 3 and w1 == 3 and w2 == 4"],
